@@ -50,7 +50,7 @@ def hook_dense(sem, io):
 
 class C06(Prop):
     id = 'C06'
-    rule_added = '20% as modular specifications (named Boolean or arithmetic sub-formulas); 8% shared-term template; 5% equality-mirror template; dense online under random chunkings.'
+    rule_added = "20% as modular specifications (named Boolean or arithmetic sub-formulas); 8% shared-term template; 5% equality-mirror template; dense online under random chunkings. 25% of the discrete cases with prev/next of a term inside predicate arithmetic; shared-term template also with '/'."
     rule = ('random formulas (predicates over inputs only, outputs only, mixed, constants only; nested under every '
             'operator) x the 5 semantics x a random input/output assignment of the variables (set before parse(); '
             'untyped variables default to output) x the 4 monitor kinds: the result is compared with the reference '
